@@ -1,3 +1,4 @@
+import re
 from collections import defaultdict
 from itertools import count
 from typing import Dict, List, Optional, Set, Tuple, Union
@@ -23,7 +24,12 @@ from netqasm.lang.operand import (
 from netqasm.lang.subroutine import Subroutine
 from netqasm.lang.symbols import Symbols
 from netqasm.util.error import NetQASMInstrError, NetQASMSyntaxError
-from netqasm.util.string import group_by_word, is_number, is_variable_name
+from netqasm.util.string import (
+    ALPHA_NUM,
+    group_by_word,
+    is_number,
+    is_variable_name,
+)
 
 T_Cmd = Union[ICmd, BranchLabel]
 T_ParsedValue = Union[int, Register, Label, Template]
@@ -353,6 +359,10 @@ def _split_preamble_body(subroutine_text: str) -> Tuple[List[str], List[str]]:
     return preamble_lines, body_lines
 
 
+# A macro key ends where no further variable-name character follows
+_MACRO_KEY_END = f"(?![{re.escape(ALPHA_NUM)}_])"
+
+
 def _apply_macros(body_lines, macros) -> List[str]:
     """Applies macros to the body lines"""
     if len(body_lines) == 0:
@@ -360,7 +370,10 @@ def _apply_macros(body_lines, macros) -> List[str]:
     body = "\n".join(body_lines)
     for macro_key, macro_value in macros:
         macro_value = macro_value.strip(Symbols.PREAMBLE_DEFINE_BRACKETS)
-        body = body.replace(f"{Symbols.MACRO_START}{macro_key}", macro_value)
+        # A macro is used as '$key' and the key extends as far as the variable
+        # name does: '$a1' refers to the macro 'a1', never to 'a' followed by '1'.
+        pattern = re.escape(f"{Symbols.MACRO_START}{macro_key}") + _MACRO_KEY_END
+        body = re.sub(pattern, lambda _match, value=macro_value: value, body)
     return list(body.split("\n"))
 
 
